@@ -35,9 +35,17 @@ type Dec struct {
 func prodKeys(f *Fn, as []int) map[Key][]int {
 	m := map[Key][]int{}
 	for i, r := range f.Results {
+		// with As the value is available under exactly the listed interfaces (the result's own type
+		// included when it is listed), each once
 		var ts []int
 		for _, a := range as {
-			if a != r.K.T {
+			dup := false
+			for _, x := range ts {
+				if x == a {
+					dup = true
+				}
+			}
+			if !dup {
 				ts = append(ts, a)
 			}
 		}
